@@ -1,4 +1,5 @@
 import BarterModel.Lemmas.BinanceL2
+import BarterModel.Lemmas.Review2_C06
 import BarterModel.Lemmas.KernelsAgree.Sequencer
 /-!
 # C06 — Binance L2 streams never leave a silently wrong local book
@@ -438,5 +439,420 @@ example : (Local.run .futures (start 1 exSnapshot) [exM2]).2 = some (.invalidSeq
 /-- … and a duplicate is silently dropped by the spot rule but reported by the futures rule -/
 example : (Local.run .spot (start 1 exSnapshot) [exM1, exM1, exM2]).2 = none := by decide
 example : (Local.run .futures (start 1 exSnapshot) [exM1, exM1, exM2]).2 = some (.invalidSequence 2 1) := by decide
+
+/-! ## 6. additions after the independent review (`audit/REVIEW-notes.md`, section C06) -/
+
+/-! ### review C06-4: stale messages need not be genuine -/
+
+/-- **review C06-4, step form** (the reviewer's `synced_step'`). The coupling invariant of one
+instrument survives a message under the hypothesis that the message is genuine *if the sequencer
+does not drop it as stale*; a stale message (spot `u ≤ last`, futures `u < last`) may carry
+anything. Strengthens `book_is_truth_step`, which asks genuineness unconditionally. -/
+theorem book_is_truth_step' (r : Rules) (v : Venue) (l : Local) (m : Update) (hl : Synced v l)
+    (hg : ¬ Stale r l.sequencer.lastUpdateId m → IsGenuine r v m) : Synced v (l.step r m).1 :=
+  synced_step' hl hg
+
+/-- **review C06-4, tightest form**: only a message that is actually *admitted* (not stale and
+extending the chain from the current state) has to be genuine, for every delivery `ms` processed
+until the first error from a snapshot at `s`. The hypothesis quantifies over the positions of the
+delivery: `ms = pre ++ m :: post`, the messages before the position were processed without error,
+and in the state reached then `m` is neither stale nor chain-breaking. Conclusion literally that
+of `book_is_truth`. -/
+theorem book_is_truth_admitted (r : Rules) (v : Venue) (s : Nat) (b0 : OrderBook) (ms : List Update)
+    (hs : SortedBook b0) (h0 : GenuineSnapshot v s b0)
+    (hg : ∀ pre m post, ms = pre ++ m :: post → (Local.run r (start s b0) pre).2 = none →
+      ¬ Stale r (Local.run r (start s b0) pre).1.sequencer.lastUpdateId m →
+      Extends r ((Local.run r (start s b0) pre).1.sequencer.updatesProcessed == 0)
+        (Local.run r (start s b0) pre).1.sequencer.lastUpdateId m → IsGenuine r v m) :
+    let res := Local.run r (start s b0) ms
+    SortedBook res.1.book ∧
+    res.1.book.sequence = res.1.sequencer.lastUpdateId ∧
+    abs res.1.book.bids = bookAt v res.1.book.sequence .bids ∧
+    abs res.1.book.asks = bookAt v res.1.book.sequence .asks ∧
+    (∀ e, res.2 = some e → e.isTerminal = true) := by
+  intro res
+  have h := synced_run_admitted (r := r) (start_synced v s b0 hs h0) hg
+  exact ⟨h.sorted, h.seq, h.bids, h.asks, fun e he => local_run_told he⟩
+
+/-- **book_is_truth'** (review C06-4) — `book_is_truth` with the hypothesis weakened to: every
+message of the delivery *that the sequencer does not drop as stale* is genuine. Stated per
+position of the delivery (`ms = pre ++ m :: post`): if the messages before the position were
+processed without error and `m` is not stale for the last id the sequencer holds then, `m` is a
+genuine message of the venue. Messages that are dropped as stale — and every message after the
+first error, which is never read — are unrestricted (any ids, any levels). Same conclusion as
+`book_is_truth`: the book is strictly ordered, reports the sequencer's last id, denotes the
+exchange's book as of that id, and an early stop is a terminal error.
+`nonstale_genuine_of_all_genuine` shows `book_is_truth`'s hypothesis implies this one;
+`stale_junk_witness` shows the converse fails. -/
+theorem book_is_truth' (r : Rules) (v : Venue) (s : Nat) (b0 : OrderBook) (ms : List Update)
+    (hs : SortedBook b0) (h0 : GenuineSnapshot v s b0)
+    (hg : ∀ pre m post, ms = pre ++ m :: post → (Local.run r (start s b0) pre).2 = none →
+      ¬ Stale r (Local.run r (start s b0) pre).1.sequencer.lastUpdateId m → IsGenuine r v m) :
+    let res := Local.run r (start s b0) ms
+    SortedBook res.1.book ∧
+    res.1.book.sequence = res.1.sequencer.lastUpdateId ∧
+    abs res.1.book.bids = bookAt v res.1.book.sequence .bids ∧
+    abs res.1.book.asks = bookAt v res.1.book.sequence .asks ∧
+    (∀ e, res.2 = some e → e.isTerminal = true) :=
+  book_is_truth_admitted r v s b0 ms hs h0 (fun pre m post h1 h2 h3 _ => hg pre m post h1 h2 h3)
+
+/-- **book_is_truth_exact'** (review C06-4) — `book_is_truth_exact` under the weakened hypothesis
+of `book_is_truth'`: with a zero-free snapshot the book is literally `specBook` of the venue at
+the sequence it reports. -/
+theorem book_is_truth_exact' (r : Rules) (v : Venue) (s : Nat) (b0 : OrderBook) (ms : List Update)
+    (hw : WFBook b0) (h0 : GenuineSnapshot v s b0)
+    (hg : ∀ pre m post, ms = pre ++ m :: post → (Local.run r (start s b0) pre).2 = none →
+      ¬ Stale r (Local.run r (start s b0) pre).1.sequencer.lastUpdateId m → IsGenuine r v m) :
+    let res := Local.run r (start s b0) ms
+    res.1.book = specBook v res.1.book.sequence := by
+  intro res
+  have h := synced_run' (r := r) (start_synced v s b0 hw.toSortedBook h0) hg
+  have hz := nonZero_run (r := r) (l := start s b0) (ms := ms) hw.bidsNonZero hw.asksNonZero
+  exact synced_eq_specBook h hz.1 hz.2
+
+/-- (review C06-4) the hypothesis of `book_is_truth` (every message genuine) implies the
+hypothesis of `book_is_truth'` (every non-stale message genuine), from any local state: the
+primed theorems are generalisations, not variants. -/
+theorem nonstale_genuine_of_all_genuine (r : Rules) (v : Venue) (l : Local) (ms : List Update)
+    (hg : ∀ m ∈ ms, IsGenuine r v m) :
+    ∀ pre m post, ms = pre ++ m :: post → (Local.run r l pre).2 = none →
+      ¬ Stale r (Local.run r l pre).1.sequencer.lastUpdateId m → IsGenuine r v m :=
+  fun pre m post h _ _ => hg m (by rw [h]; simp)
+
+/-- `book_is_truth` re-derived from `book_is_truth'` -/
+example (r : Rules) (v : Venue) (s : Nat) (b0 : OrderBook) (ms : List Update)
+    (hs : SortedBook b0) (h0 : GenuineSnapshot v s b0) (hg : ∀ m ∈ ms, IsGenuine r v m) :
+    let res := Local.run r (start s b0) ms
+    SortedBook res.1.book ∧ res.1.book.sequence = res.1.sequencer.lastUpdateId ∧
+    abs res.1.book.bids = bookAt v res.1.book.sequence .bids ∧
+    abs res.1.book.asks = bookAt v res.1.book.sequence .asks ∧
+    (∀ e, res.2 = some e → e.isTerminal = true) :=
+  book_is_truth' r v s b0 ms hs h0 (nonstale_genuine_of_all_genuine r v _ ms hg)
+
+/-- a message that is no message of `exVenue` for any id range: it claims the bid `100 ↦ 5` as of
+id 1 where the venue has `100 ↦ 1`; with `u = 1` it is stale for a snapshot at id 1 under the spot
+rule (`u ≤ last`) -/
+def exJunk : Update := ⟨0, 1, 1, 0, [⟨100, 5⟩], []⟩
+
+/-- **stale_junk_witness** (review C06-4) — the weakening is real: the delivery
+`[exJunk, exM1, exM2]` after the snapshot at id 1 contains a message that is not genuine for any
+id range (so `book_is_truth` does not apply), yet it satisfies the hypothesis of `book_is_truth'`
+(spot rule: the junk is dropped as stale), is processed without error, and leaves the exchange's
+book as of id 3. -/
+theorem stale_junk_witness :
+    ¬ IsGenuine .spot exVenue exJunk ∧
+    (∀ pre m post, [exJunk, exM1, exM2] = pre ++ m :: post →
+      (Local.run .spot (start 1 exSnapshot) pre).2 = none →
+      ¬ Stale .spot (Local.run .spot (start 1 exSnapshot) pre).1.sequencer.lastUpdateId m →
+      IsGenuine .spot exVenue m) ∧
+    (Local.run .spot (start 1 exSnapshot) [exJunk, exM1, exM2]).2 = none ∧
+    (Local.run .spot (start 1 exSnapshot) [exJunk, exM1, exM2]).1.book = ⟨3, [], [⟨101, 2⟩]⟩ := by
+  refine ⟨?_, ?_, by decide, by decide +kernel⟩
+  · rintro ⟨lo, hi, hids, hb, _⟩
+    have hu : (1 : Nat) = hi := hids.2.1
+    subst hu
+    exact absurd (hb.1 ⟨100, 5⟩ (by simp [exJunk])) (by decide)
+  · intro pre m post hsplit _ hns
+    have g1 : IsGenuine .spot exVenue exM1 := ⟨0, 2, by decide⟩
+    have g2 : IsGenuine .spot exVenue exM2 := ⟨2, 3, by decide⟩
+    match pre, hsplit with
+    | [], h =>
+      simp only [List.nil_append, List.cons.injEq] at h
+      rw [← h.1] at hns
+      exact absurd (by decide) hns
+    | [_], h =>
+      simp only [List.cons_append, List.nil_append, List.cons.injEq] at h
+      rw [← h.2.1]; exact g1
+    | [_, _], h =>
+      simp only [List.cons_append, List.nil_append, List.cons.injEq] at h
+      rw [← h.2.2.1]; exact g2
+    | _ :: _ :: _ :: pre', h =>
+      simp at h
+
+/-- **connection_book_is_truth'** (review C06-4, connection level) — `connection_book_is_truth`
+with genuineness demanded only of messages that are not dropped as stale: at every position of the
+interleaved delivery (`ms = pre ++ m :: post`), if the message's subscription is in the map as it
+stands after `pre` and the message is not stale for that instrument's sequencer, it is a genuine
+message of that instrument's venue. Stale messages, messages for unknown subscriptions and
+whatever arrives after the connection died are unrestricted. -/
+theorem connection_book_is_truth' (r : Rules) (venues : Nat → Venue) (c : Conn) (ms : List Update)
+    (hc : ConnSynced venues c)
+    (hg : ∀ pre m post, ms = pre ++ m :: post →
+      ∀ im, (c.run r pre).transformer.instrumentMap.lookup m.sub = some im →
+      ¬ Stale r im.sequencer.lastUpdateId m → IsGenuine r (venues m.sub) m) :
+    ConnSynced venues (c.run r ms) := connSynced_run' hc hg
+
+/-! ### review C06-2 (and C06-3): several instruments interleaved on one connection -/
+
+/-- **connection_instrument_is_sequencer_run** (review C06-2 / C06-3) — the projection that ties
+the connection to the single-instrument theorems: after *any* interleaved delivery `ms`, the map
+entry of a subscribed instrument `a` still has its key, and its sequencer is exactly
+`Sequencer.run` fed with `a`'s own messages (`ms.filter (·.sub == a)`, in their order) from `a`'s
+initial sequencer. So `admitted_chain` / `admitted_linked` / `admitted_not_stale`, stated for
+`Sequencer.run`, are statements about every instrument's sequencer inside the transformer. No
+hypothesis on the messages. -/
+theorem connection_instrument_is_sequencer_run (r : Rules) (t : Transformer) (ms : List Update)
+    (a : Nat) (im : Meta) (h : t.instrumentMap.lookup a = some im) :
+    (Transformer.run r t ms).1.instrumentMap.lookup a =
+      some { im with sequencer :=
+        (Sequencer.run r im.sequencer (ms.filter (fun x => x.sub == a))).1 } :=
+  transformer_run_lookup h
+
+/-- **connection_errors_are_instrument_errors** (review C06-2) — if no subscribed instrument's own
+sub-sequence makes *its* sequencer (run alone) report an error, then the only errors in the
+output of the whole interleaved delivery are the non-terminal `Unidentifiable` answers to
+messages whose subscription id is not in the map; in particular the output is not terminated. -/
+theorem connection_errors_are_instrument_errors (r : Rules) (t : Transformer) (ms : List Update)
+    (h : ∀ a im, t.instrumentMap.lookup a = some im →
+      ∀ e, Validated.error e ∉ (Sequencer.run r im.sequencer (ms.filter (fun x => x.sub == a))).2) :
+    (∀ e, Out.error e ∈ (Transformer.run r t ms).2 →
+      ∃ m ∈ ms, t.instrumentMap.lookup m.sub = none ∧ e = .unidentifiable m.sub) ∧
+    terminated (Transformer.run r t ms).2 = false := by
+  have herr := transformer_run_errors h
+  refine ⟨herr, ?_⟩
+  cases ht : terminated (Transformer.run r t ms).2 with
+  | false => rfl
+  | true =>
+    obtain ⟨e, he, hterm⟩ := terminated_has_terminal ht
+    obtain ⟨m, _, _, rfl⟩ := herr e he
+    simp [DataError.isTerminal] at hterm
+
+/-- **no_false_alarm_conn** (review C06-2) — `no_false_alarm` for SEVERAL instruments whose
+messages are interleaved arbitrarily on one live connection. Hypothesis, per subscribed instrument
+`a` (map entry `im`): its sequencer is fresh (`updates_processed = 0`, standing at the snapshot
+id `im.sequencer.lastUpdateId`), and `a`'s own sub-sequence of the connection history
+(`ms.filter (·.sub == a)`) is `old a ++ run a`: any number of messages stale with respect to the
+snapshot id (genuine or not) followed by a gap-free in-order run of genuine messages of `a`'s
+venue whose first one covers the snapshot point — exactly the hypothesis of `no_false_alarm`, for
+each instrument separately; how the instruments' messages are interleaved, and messages for
+subscription ids that are not in the map, are unrestricted. Conclusion: the connection is alive
+after the whole history (hence, `conn_stays_alive_prefix`, after every prefix: it is never told
+to terminate); the output of the transformer contains no terminal error, and the only errors in it
+are the non-terminal `Unidentifiable` answers to messages for unknown subscription ids (none at
+all if every message is for a subscribed instrument, `no_false_alarm_conn_no_error`); every
+instrument's sequencer has counted exactly its run and stands at the run's last `u`. -/
+theorem no_false_alarm_conn (r : Rules) (venues : Nat → Venue) (c : Conn) (ms : List Update)
+    (old run : Nat → List Update) (c0 : Nat → Nat) (halive : c.alive = true)
+    (hinst : ∀ a im, c.transformer.instrumentMap.lookup a = some im →
+      im.sequencer.updatesProcessed = 0 ∧
+      ms.filter (fun m => m.sub == a) = old a ++ run a ∧
+      (∀ m ∈ old a, Stale r im.sequencer.lastUpdateId m) ∧
+      GenuineRun r (venues a) (c0 a) (run a) ∧
+      Covers r (venues a) im.sequencer.lastUpdateId (c0 a) (run a)) :
+    (c.run r ms).alive = true ∧
+    terminated (Transformer.run r c.transformer ms).2 = false ∧
+    (∀ e, Out.error e ∈ (Transformer.run r c.transformer ms).2 →
+      ∃ m ∈ ms, c.transformer.instrumentMap.lookup m.sub = none ∧ e = .unidentifiable m.sub) ∧
+    (∀ a im, c.transformer.instrumentMap.lookup a = some im →
+      ∃ im', (c.run r ms).transformer.instrumentMap.lookup a = some im' ∧ im'.key = im.key ∧
+        im'.sequencer.updatesProcessed = (run a).length ∧
+        im'.sequencer.lastUpdateId =
+          (((run a).getLast?.map (·.lastUpdateId)).getD im.sequencer.lastUpdateId)) := by
+  have hno : ∀ a im, c.transformer.instrumentMap.lookup a = some im →
+      ∀ e, Validated.error e ∉
+        (Sequencer.run r im.sequencer (ms.filter (fun x => x.sub == a))).2 := by
+    intro a im hl
+    obtain ⟨hup, hsplit, hold, hrun, hcov⟩ := hinst a im hl
+    rw [hsplit]; exact (seq_run_no_false_alarm hup hold hrun hcov).1
+  obtain ⟨herr, hterm⟩ := connection_errors_are_instrument_errors r c.transformer ms hno
+  have halive' : (c.run r ms).alive = true := by rw [(stream_view r c ms halive).2, hterm]; rfl
+  refine ⟨halive', hterm, herr, ?_⟩
+  intro a im hl
+  obtain ⟨hup, hsplit, hold, hrun, hcov⟩ := hinst a im hl
+  have hfin := seq_run_no_false_alarm hup hold hrun hcov
+  rw [conn_run_transformer halive', transformer_run_lookup hl, hsplit]
+  exact ⟨_, rfl, rfl, hfin.2.1, hfin.2.2⟩
+
+/-- (review C06-2) "never told": a connection that is alive after a history was alive after every
+prefix of it — so under the hypotheses of `no_false_alarm_conn` no message of the history is
+answered with the terminal error. -/
+theorem conn_stays_alive_prefix (r : Rules) (c : Conn) (pre rest : List Update)
+    (h : (c.run r (pre ++ rest)).alive = true) : (c.run r pre).alive = true :=
+  conn_run_alive_prefix h
+
+/-- (review C06-2) under the hypotheses of `no_false_alarm_conn`, if moreover every message of the
+history is for a subscribed instrument, the transformer's output contains no error at all: every
+output is a book update event. -/
+theorem no_false_alarm_conn_no_error (r : Rules) (venues : Nat → Venue) (c : Conn) (ms : List Update)
+    (old run : Nat → List Update) (c0 : Nat → Nat) (halive : c.alive = true)
+    (hinst : ∀ a im, c.transformer.instrumentMap.lookup a = some im →
+      im.sequencer.updatesProcessed = 0 ∧
+      ms.filter (fun m => m.sub == a) = old a ++ run a ∧
+      (∀ m ∈ old a, Stale r im.sequencer.lastUpdateId m) ∧
+      GenuineRun r (venues a) (c0 a) (run a) ∧
+      Covers r (venues a) im.sequencer.lastUpdateId (c0 a) (run a))
+    (hknown : ∀ m ∈ ms, (c.transformer.instrumentMap.lookup m.sub).isSome) :
+    ∀ e, Out.error e ∉ (Transformer.run r c.transformer ms).2 := by
+  intro e he
+  obtain ⟨m, hm, hnone, _⟩ := (no_false_alarm_conn r venues c ms old run c0 halive hinst).2.2.1 e he
+  have := hknown m hm
+  rw [hnone] at this; simp at this
+
+/-- **no_false_alarm_conn_books** (review C06-2) — … and the books: if the connection moreover
+satisfies the coupling invariant at the start (`ConnSynced`; `connection_start` gives it for a
+freshly initialised connection with genuine snapshots), then after the interleaved history every
+subscribed instrument's book in the consumer's map reports the last `u` of that instrument's run
+(or its snapshot id if the run is empty) and denotes the exchange's book of *that* instrument as of
+that id. The stale messages `old a` need not be genuine. -/
+theorem no_false_alarm_conn_books (r : Rules) (venues : Nat → Venue) (c : Conn) (ms : List Update)
+    (old run : Nat → List Update) (c0 : Nat → Nat) (halive : c.alive = true)
+    (hc : ConnSynced venues c)
+    (hinst : ∀ a im, c.transformer.instrumentMap.lookup a = some im →
+      im.sequencer.updatesProcessed = 0 ∧
+      ms.filter (fun m => m.sub == a) = old a ++ run a ∧
+      (∀ m ∈ old a, Stale r im.sequencer.lastUpdateId m) ∧
+      GenuineRun r (venues a) (c0 a) (run a) ∧
+      Covers r (venues a) im.sequencer.lastUpdateId (c0 a) (run a)) :
+    ConnSynced venues (c.run r ms) ∧
+    ∀ a im, c.transformer.instrumentMap.lookup a = some im →
+      let last := (((run a).getLast?.map (·.lastUpdateId)).getD im.sequencer.lastUpdateId)
+      ∃ b, (c.run r ms).books.lookup im.key = some b ∧ SortedBook b ∧ b.sequence = last ∧
+        abs b.bids = bookAt (venues a) last .bids ∧ abs b.asks = bookAt (venues a) last .asks := by
+  obtain ⟨halive', _, _, hfin⟩ := no_false_alarm_conn r venues c ms old run c0 halive hinst
+  have hsync : ConnSynced venues (c.run r ms) := by
+    apply connSynced_run' hc
+    intro pre m post hsplit im' hl' hns
+    have hpre : (c.run r pre).alive = true := conn_run_alive_prefix (by rw [← hsplit]; exact halive')
+    rw [conn_run_transformer hpre] at hl'
+    cases h0 : c.transformer.instrumentMap.lookup m.sub with
+    | none => rw [transformer_run_lookup_none h0] at hl'; simp at hl'
+    | some im0 =>
+      rw [transformer_run_lookup h0] at hl'
+      simp only [Option.some.injEq] at hl'
+      subst hl'
+      obtain ⟨_, hfil, hold, hrun, _⟩ := hinst m.sub im0 h0
+      have hmem : m ∈ old m.sub ++ run m.sub := by
+        rw [← hfil, List.mem_filter]; exact ⟨by rw [hsplit]; simp, by simp⟩
+      rcases List.mem_append.mp hmem with hm | hm
+      · exact absurd (stale_mono (seq_run_last_mono r im0.sequencer _) (hold m hm)) hns
+      · exact genuineRun_mem hrun m hm
+  refine ⟨hsync, ?_⟩
+  intro a im hl last
+  obtain ⟨im', hl', hkey, _, hlast⟩ := hfin a im hl
+  obtain ⟨b, hb, hs⟩ := hsync.synced a im' hl'
+  have hseq : b.sequence = last := hs.seq.trans hlast
+  refine ⟨b, by rw [← hkey]; exact hb, hs.sorted, hseq, ?_, ?_⟩
+  · rw [← hseq]; exact hs.bids
+  · rw [← hseq]; exact hs.asks
+
+/-! ### review C06-1: the futures first-update rule and a snapshot exactly at a message boundary -/
+
+/-- a REST snapshot of `exVenue` taken exactly at the boundary id 2 (after `exM1`'s range `(0,2]`,
+before `exM2`'s range `(2,3]`) -/
+def exSnapshotBoundary : OrderBook := ⟨2, [⟨100, 1⟩], [⟨101, 2⟩]⟩
+
+/-- **futures_boundary_snapshot_witness** (review C06-1) — kernel-checked on concrete numbers.
+Snapshot of `exVenue` taken EXACTLY at a message boundary (`lastUpdateId = s = 2`, a genuine
+snapshot), followed by the gap-free continuation `[exM2]` (`U = 3 = s+1`, `pu = 2 = s`, `u = 3`;
+a `GenuineRun` from cut 2 under both rule sets — nothing is missing between the snapshot and the
+message):
+* the SPOT rules accept it (`validate_first_update`: `U ≤ s+1 ≤ u`, `spot/l2.rs:242-255`): no error;
+* the FUTURES rules REJECT it with the terminal `InvalidSequence { prev_last_update_id: 2,
+  first_update_id: 3 }`: the futures `validate_first_update`
+  (`/repo/barter-data/src/exchange/binance/futures/l2.rs:248-262`, guard at lines 252-253
+  `update.first_update_id <= self.last_update_id && update.last_update_id >= self.last_update_id`)
+  demands `U ≤ lastUpdateId ≤ u`, i.e. the snapshot id strictly *inside* the first processed
+  message (`U = 3 ≤ 2` fails). This is Binance's PUBLISHED rule for USD-M futures ("How to manage a
+  local order book correctly", step 5: "The first processed event should have U <= lastUpdateId
+  AND u >= lastUpdateId", quoted in the doc comments at `futures/l2.rs:235-247`), which the code
+  implements literally — the model mirrors it, it is not a modelling artefact;
+* this is exactly the point `Covers .futures` excludes (`c0 < s`: the first message's range must
+  start strictly before the snapshot id), and is why `no_false_alarm` (and `no_false_alarm_conn`)
+  for the futures rule set carries the hypothesis `Covers .futures`; `Covers .spot` holds here;
+* preceded by the previous message `exM1` (range `(0,2]`, `u = s`: not stale under the futures
+  rule `u < last`, and covering the snapshot id) the same continuation is accepted by futures. -/
+theorem futures_boundary_snapshot_witness :
+    GenuineSnapshot exVenue 2 exSnapshotBoundary ∧ SortedBook exSnapshotBoundary ∧
+    GenuineRun .spot exVenue 2 [exM2] ∧ GenuineRun .futures exVenue 2 [exM2] ∧
+    exM2.firstUpdateId = 2 + 1 ∧ exM2.prevLastUpdateId = 2 ∧
+    -- the two `validate_first_update`s on a fresh sequencer at the snapshot id
+    (Sequencer.new 2).validateFirstUpdate .spot exM2 = .ok () ∧
+    (Sequencer.new 2).validateFirstUpdate .futures exM2 = .error (.invalidSequence 2 3) ∧
+    -- whole local pipeline: spot admits and reaches the venue's book at 3, futures tells the consumer
+    (Local.run .spot (start 2 exSnapshotBoundary) [exM2]).2 = none ∧
+    (Local.run .spot (start 2 exSnapshotBoundary) [exM2]).1.book = ⟨3, [], [⟨101, 2⟩]⟩ ∧
+    (Local.run .futures (start 2 exSnapshotBoundary) [exM2]).2 = some (.invalidSequence 2 3) ∧
+    (DataError.invalidSequence 2 3).isTerminal = true ∧
+    -- the hypothesis of `no_false_alarm` that excludes it
+    Covers .spot exVenue 2 2 [exM2] ∧ ¬ Covers .futures exVenue 2 2 [exM2] ∧
+    -- with the message containing the snapshot id in front, futures accepts
+    Covers .futures exVenue 2 0 [exM1, exM2] ∧
+    (Local.run .futures (start 2 exSnapshotBoundary) [exM1, exM2]).2 = none := by
+  refine ⟨?_, ⟨by decide, by decide⟩, ⟨by decide, trivial⟩, ⟨by decide, trivial⟩, rfl, rfl,
+    rfl, rfl, by decide, by decide +kernel, by decide, rfl, ⟨by decide, by decide⟩,
+    fun h => absurd h.1 (by decide), ⟨by decide, by decide, ⟨2, .asks, 101, 2⟩, by decide, rfl⟩,
+    by decide⟩
+  refine ⟨rfl, ?_, ?_⟩ <;> funext p <;>
+    simp [exSnapshotBoundary, exVenue, abs, bookAt, changesUpTo, applyLevels, setLevel] <;> grind
+
+/-! ### non-vacuity of `no_false_alarm_conn`: two instruments interleaved -/
+
+/-- the two messages of `exVenue` again, for subscription 1 -/
+def exM1' : Update := { exM1 with sub := 1 }
+def exM2' : Update := { exM2 with sub := 1 }
+
+/-- two instruments (subscriptions 0 and 1, both with venue `exVenue` and the snapshot at id 1) on a
+fresh connection; their messages interleaved `0,1,1,0`, one stale non-genuine message (`exJunk`,
+subscription 0) in front: all hypotheses of `no_false_alarm_conn` hold (spot rule) … -/
+example :
+    let c := Conn.start [(0, 10, exSnapshot), (1, 11, exSnapshot)]
+    let ms := [exJunk, exM1, exM1', exM2', exM2]
+    let old : Nat → List Update := fun a => if a = 0 then [exJunk] else []
+    let run : Nat → List Update := fun a => if a = 0 then [exM1, exM2] else [exM1', exM2']
+    ∀ a im, c.transformer.instrumentMap.lookup a = some im →
+      im.sequencer.updatesProcessed = 0 ∧
+      ms.filter (fun m => m.sub == a) = old a ++ run a ∧
+      (∀ m ∈ old a, Stale .spot im.sequencer.lastUpdateId m) ∧
+      GenuineRun .spot exVenue 0 (run a) ∧
+      Covers .spot exVenue im.sequencer.lastUpdateId 0 (run a) := by
+  intro c ms old run a im h
+  match a, h with
+  | 0, h =>
+    simp [c, Conn.start] at h; subst h
+    exact ⟨rfl, by decide, by decide, ⟨by decide, by decide, trivial⟩, ⟨by decide, by decide⟩⟩
+  | 1, h =>
+    simp [c, Conn.start, List.lookup] at h; subst h
+    exact ⟨rfl, by decide, by decide, ⟨by decide, by decide, trivial⟩, ⟨by decide, by decide⟩⟩
+  | n + 2, h => simp [c, Conn.start, List.lookup] at h
+
+/-- … and the conclusion, computed: alive, no error output, both books at the venue's book as of 3 -/
+example :
+    ((Conn.start [(0, 10, exSnapshot), (1, 11, exSnapshot)]).run .spot
+      [exJunk, exM1, exM1', exM2', exM2]).alive = true := by decide
+example :
+    ((Conn.start [(0, 10, exSnapshot), (1, 11, exSnapshot)]).run .spot
+      [exJunk, exM1, exM1', exM2', exM2]).books =
+      [(10, ⟨3, [], [⟨101, 2⟩]⟩), (11, ⟨3, [], [⟨101, 2⟩]⟩)] := by decide +kernel
+/-- dropping instrument 1's first message kills the whole connection (the hypothesis is needed) -/
+example :
+    ((Conn.start [(0, 10, exSnapshot), (1, 11, exSnapshot)]).run .spot
+      [exM1, exM2', exM2]).alive = false := by decide
+/-- the same two instruments under the FUTURES rule (snapshot id 1 strictly inside `exM1`'s range
+`(0,2]`, so `Covers .futures` holds): hypotheses satisfiable, connection alive -/
+example :
+    let c := Conn.start [(0, 10, exSnapshot), (1, 11, exSnapshot)]
+    let ms := [exM1, exM1', exM2', exM2]
+    let run : Nat → List Update := fun a => if a = 0 then [exM1, exM2] else [exM1', exM2']
+    ∀ a im, c.transformer.instrumentMap.lookup a = some im →
+      im.sequencer.updatesProcessed = 0 ∧
+      ms.filter (fun m => m.sub == a) = [] ++ run a ∧
+      (∀ m ∈ ([] : List Update), Stale .futures im.sequencer.lastUpdateId m) ∧
+      GenuineRun .futures exVenue 0 (run a) ∧
+      Covers .futures exVenue im.sequencer.lastUpdateId 0 (run a) := by
+  intro c ms run a im h
+  match a, h with
+  | 0, h =>
+    simp [c, Conn.start] at h; subst h
+    exact ⟨rfl, by decide, by simp, ⟨by decide, by decide, trivial⟩,
+      ⟨by decide, by decide, ⟨1, .bids, 100, 1⟩, by decide, rfl⟩⟩
+  | 1, h =>
+    simp [c, Conn.start, List.lookup] at h; subst h
+    exact ⟨rfl, by decide, by simp, ⟨by decide, by decide, trivial⟩,
+      ⟨by decide, by decide, ⟨1, .bids, 100, 1⟩, by decide, rfl⟩⟩
+  | n + 2, h => simp [c, Conn.start, List.lookup] at h
+example :
+    ((Conn.start [(0, 10, exSnapshot), (1, 11, exSnapshot)]).run .futures
+      [exM1, exM1', exM2', exM2]).alive = true := by decide
+
 
 end BarterModel.Props.C06
